@@ -689,6 +689,9 @@ func judge(r *core.Run, m *Mutant) {
 	key := m.Class + "/" + m.Region
 	if p != nil {
 		r.Count("panicked", 1)
+		if m.Class == "control" {
+			r.Violation("control-panicked:"+mtName(m.MT), m.Desc+": verifying an unmodified valid envelope panicked: "+p.Value, m)
+		}
 		return
 	}
 	if err != nil {
